@@ -198,6 +198,50 @@ func inlineRefs(root any) any {
 	if defs == nil {
 		return root
 	}
+	// a definition that reaches itself through $ref is recursive: it stays a definition (inlining would not end)
+	refsOf := func(v any) []string {
+		var out []string
+		var w func(v any)
+		w = func(v any) {
+			switch x := v.(type) {
+			case []any:
+				for _, e := range x {
+					w(e)
+				}
+			case map[string]any:
+				if r, has := x["$ref"].(string); has && strings.HasPrefix(r, "#/$defs/") {
+					out = append(out, strings.TrimPrefix(r, "#/$defs/"))
+				}
+				for k, e := range x {
+					if k != "const" && k != "enum" && k != "default" && k != "examples" {
+						w(e)
+					}
+				}
+			}
+		}
+		w(v)
+		return out
+	}
+	recursive := map[string]bool{}
+	for name := range defs {
+		seen := map[string]bool{}
+		stack := refsOf(defs[name])
+		for len(stack) > 0 {
+			n := stack[len(stack)-1]
+			stack = stack[:len(stack)-1]
+			if n == name {
+				recursive[name] = true
+				break
+			}
+			if seen[n] {
+				continue
+			}
+			seen[n] = true
+			if d, ok := defs[n]; ok {
+				stack = append(stack, refsOf(d)...)
+			}
+		}
+	}
 	var walk func(v any, fuel int) any
 	walk = func(v any, fuel int) any {
 		switch x := v.(type) {
@@ -208,7 +252,7 @@ func inlineRefs(root any) any {
 			}
 			return out
 		case map[string]any:
-			if r, has := x["$ref"].(string); has && len(x) == 1 && strings.HasPrefix(r, "#/$defs/") && fuel > 0 {
+			if r, has := x["$ref"].(string); has && len(x) == 1 && strings.HasPrefix(r, "#/$defs/") && fuel > 0 && !recursive[strings.TrimPrefix(r, "#/$defs/")] {
 				if d, ok := defs[strings.TrimPrefix(r, "#/$defs/")]; ok {
 					return walk(d, fuel-1)
 				}
@@ -231,7 +275,17 @@ func inlineRefs(root any) any {
 			top[k] = e
 		}
 	}
-	return walk(top, 40)
+	res := walk(top, 40)
+	if len(recursive) > 0 {
+		if rm, ok := res.(map[string]any); ok {
+			kept := map[string]any{}
+			for name := range recursive {
+				kept[name] = walk(defs[name], 40)
+			}
+			rm["$defs"] = kept
+		}
+	}
+	return res
 }
 
 // Opt: one option set of ToJSONSchema.
@@ -315,6 +369,19 @@ func convertReal(real core.ZodSchema, o Opt) (c compiled) {
 }
 
 func b01(b bool) string { return hx.B01(b) }
+
+func probeLegacyRec() bool {
+	legacy := false
+	hx.Safely(func() {
+		js, err := gozod.ToJSONSchema(buildRec("field", gozod.String()))
+		if err != nil {
+			return
+		}
+		raw, err := json.Marshal(js)
+		legacy = err == nil && strings.Contains(string(raw), `"$ref":"#"`)
+	})
+	return legacy
+}
 
 func probeLegacyMap() bool {
 	legacy := false
@@ -402,6 +469,7 @@ type live struct {
 	convs  []string        // option tokens of the conversions made so far, in order
 	judged map[string]bool // emitted documents whose whole instance set has been judged
 	kids   []*live         // earlier top-level schemas embedded in this one (same live instances)
+	plain  bool            // converted with default options only (recursive family: the $defs names depend on the options)
 }
 
 // hasDup: one AST node (= one live instance) occurs twice inside s.
@@ -418,6 +486,12 @@ func hasDup(s *Sch) bool {
 			return
 		}
 		seen[s] = true
+		// Optional() / Nilable() / Meta() return a modified COPY of the schema (not a wrapper object holding it): the
+		// converter visits the copy, never the node below — so the node below is no visit of ITS live instance, and two
+		// different wrappers around one node are two instances.  What the copy shares with the original are the children.
+		for s.K == "opt" || s.K == "nul" || s.K == "id" {
+			s = s.Elem
+		}
 		walk(s.Elem)
 		walk(s.Key)
 		walk(s.Catch)
@@ -443,6 +517,9 @@ type runner struct {
 
 // convert: one ToJSONSchema call on the live instance, judged like every other.
 func (r *runner) convert(lv *live, o Opt) {
+	if lv.plain {
+		o = defaultOpt
+	}
 	r.clock++
 	k := len(lv.convs) + 1
 	first := k == 1 && o == defaultOpt
@@ -537,6 +614,8 @@ func runC07(cfg hx.Config) error {
 	// C07-map-key-schema; until it lands the old converter's document is the model's `toDocL false true`.)
 	legacyMap = probeLegacyMap()
 	out.Count("probe:convertMap-drops-key-schema=" + b01(legacyMap))
+	legacyRec = probeLegacyRec()
+	out.Count("probe:convertLazy-answers-nonroot-cycle-with-#=" + b01(legacyRec))
 	corpus := corpusSchemas()
 	seen := map[string]bool{}
 	liveOf := map[*Sch]*live{}
@@ -553,6 +632,17 @@ func runC07(cfg hx.Config) error {
 			if s.K == "obj" && len(s.Fields) > 0 && rng.Chance(45) {
 				s.Part = false
 				s.Ops = g.objOps(s)
+			}
+			// a recursive schema (3 %): leaf = a string / bool / enum schema
+			if rng.Chance(3) {
+				leaf := g.strSchema()
+				switch rng.Intn(4) {
+				case 0:
+					leaf = &Sch{K: "bool"}
+				case 1:
+					leaf = &Sch{K: "enum", Strs: []string{"a", "b"}}
+				}
+				s = &Sch{K: "recv", Kind: hx.Pick(rng, []string{"root", "field", "field", "slice"}), Elem: leaf}
 			}
 			// Map at the top of the schema (5 %): string key schema with or without checks, any value schema, size checks
 			if rng.Chance(5) {
@@ -578,10 +668,10 @@ func runC07(cfg hx.Config) error {
 			continue
 		}
 		seen[text] = true
-		if s.K != "lazy" && s.K != "map" && len(s.Ops) == 0 {
+		if s.K != "lazy" && s.K != "map" && s.K != "recv" && len(s.Ops) == 0 {
 			g.pool = append(g.pool, s) // a lazy schema / an object with a call history is never embedded in a later schema
 		}
-		lv := &live{s: s, text: text, dup: hasDup(s), judged: map[string]bool{}}
+		lv := &live{s: s, text: text, dup: hasDup(s), judged: map[string]bool{}, plain: s.K == "recv"}
 		for _, u := range g.used {
 			if k := liveOf[u]; k != nil {
 				lv.kids = append(lv.kids, k)
